@@ -34,10 +34,23 @@ def run(prog):
     errs = []
     # the loop: header tests node_count(G) of a loop-carried graph
     loops = []
+    selection_form = False
     for h, body in cfg.loop_headers.items():
         guards = [cs for cs in te.calls if cs.bb in body and cs.callee.name == "node_count"]
         if guards:
             loops.append((h, body, guards[0]))
+    if not loops:
+        # `while let Some((idx, _)) = g.node_indices()...min_by_key(..)`: the selection is None exactly when no node is left
+        for h, body in cfg.loop_headers.items():
+            sel = [cs for cs in te.calls if cs.bb in body and cs.callee.name in ("min_by", "min_by_key", "max_by", "max_by_key", "next", "min", "max")
+                   and "node_indices" in show(cs.args[0])]
+            sw = [b for b in body if b in te.switch_term and strip(te.switch_term[b][0])[0] == "discr" and
+                  any(strip(te.switch_term[b][0])[1] == ("call", c.callee, tuple(c.args)) + ((c.bb,),) or show(strip(te.switch_term[b][0])[1]) == show(("call", c.callee, tuple(c.args))) for c in sel)]
+            if sel and sw:
+                ni = [cs for cs in te.calls if cs.bb in body and cs.callee.name == "node_indices"]
+                if ni:
+                    loops.append((h, body, ni[0]))
+                    selection_form = True
     if len(loops) != 1:
         out.append(inst("MF", "%s:MF1:one-in-one-out" % fn.npath, UNDECIDED, fn, None,
                         "expected one loop guarded by node_count(), found %d" % len(loops)))
@@ -47,7 +60,9 @@ def run(prog):
         latches = [u for (u, hh) in cfg.back_edges if hh == h]
         # the test that keeps the loop going
         sw = [(b, te.switch_term[b]) for b in sorted(body) if b in te.switch_term and "node_count" in show(te.switch_term[b][0])]
-        if not sw:
+        if selection_form:
+            pass
+        elif not sw:
             errs.append("?the loop does not branch on node_count()")
         else:
             c = strip(sw[0][1][0])
